@@ -134,7 +134,9 @@ package bufworkspace
 //@   ensures every-inside-path-rebased: isTargetModule && config.protoFileTargetPath == "" && err == nil ==> (forall j int :: 0 <= j && j < len(bucketTargeting.TargetPaths()) && a2_strictIn(moduleDirPath, bucketTargeting.TargetPaths()[j]) ==> (exists k int, root string :: 0 <= k && k < len(r1.moduleTargetPaths) && (root in moduleConfig.RootToExcludes()) && a2_strictIn(root, e_relTo(moduleDirPath, bucketTargeting.TargetPaths()[j])) && r1.moduleTargetPaths[k] == a2_rebase(root, moduleDirPath, bucketTargeting.TargetPaths()[j])))
 //@   ensures excludes-only-for-targets: err == nil && !r1.isTargetModule ==> len(r1.moduleTargetExcludePaths) == 0 && len(r1.moduleTargetPaths) == 0
 //@   ensures module-excludes-only-from-inside: isTargetModule && config.protoFileTargetPath == "" && err == nil ==> (forall k int :: 0 <= k && k < len(r1.moduleTargetExcludePaths) ==> (exists j int, root string :: 0 <= j && j < len(bucketTargeting.TargetExcludePaths()) && (root in moduleConfig.RootToExcludes()) && a2_strictIn(moduleDirPath, bucketTargeting.TargetExcludePaths()[j]) && a2_strictIn(root, e_relTo(moduleDirPath, bucketTargeting.TargetExcludePaths()[j])) && r1.moduleTargetExcludePaths[k] == a2_rebase(root, moduleDirPath, bucketTargeting.TargetExcludePaths()[j])))
-//@   loop 0 invariant true
+// per root: the module bucket is first MAPPED onto the root and THEN filtered (excludes and includes are relative to the
+// root, C16 "the set of files built"): every root bucket is a filter whose delegate is a view based on the module bucket
+//@   loop 0 invariant {C10 C16} map-then-filter: forall k int :: 0 <= k && k < len(rootBuckets) ==> typeOf(rootBuckets[k]) == typeId(*storage.filterReadBucketCloser) && u_viewBase(cast(*storage.filterReadBucketCloser, rootBuckets[k]).delegate) == moduleBucket
 //@   loop 1 invariant true
 //@   loop 2 invariant true
 //
